@@ -58,6 +58,48 @@ void h_c07_scope_dot_process_var(void)
     REACH;
 }
 
+/* P.x on a process P: x is the member of that name of P's type; a location member gives a boolean test; any other member
+   has the member's type, re-qualified from the template's name to the process's, with EVERY binding of the process's
+   parameter mapping substituted exactly once (the statement: "with P's arguments substituted") and nothing else */
+extern int verif_errors, verif_no_member;
+void w07s_dot_process(int nmem, const int* mn, const int* mt, int mapped, int tn, int pn, int id);
+int w07s_dot_result(int what);
+void h_c07_scope_dot_process(void)
+{
+    int d, ty, on, ot, pos, nmem, mn[3], mt[3], mapped, tn, pn, id;
+    __CPROVER_assume(d >= 1 && d <= 2 && ty >= 0 && ty < 400 && on >= 0 && on < 4 && ot >= 0 && ot < 400);
+    __CPROVER_assume(nmem >= 0 && nmem <= 3 && mapped >= 0 && mapped < 8 && tn >= 4 && tn < 8 && pn >= 8 && pn < 12 && id >= 0 && id < 4);
+    for (int i = 0; i < 3; i++) __CPROVER_assume(mn[i] >= 0 && mn[i] < 4 && mt[i] >= 0 && mt[i] < 400);
+    w07s_init(d, ty, on, ot, pos);
+    w07s_dot_process(nmem, mn, mt, mapped, tn, pn, id);
+    int idx = -1;
+    for (int i = 2; i >= 0; i--) if (i < nmem && mn[i] == id) idx = i;
+    __CPROVER_assert(w07s_depth() == w07s_depth0() && w07s_top_frame() == w07s_top0(), "c07.expr_dot.process:the-scope-stack-is-unchanged");
+    if (idx < 0) {
+        __CPROVER_assert(verif_no_member == 1 && verif_errors == 1 && w07s_dot_result(0), "c07.expr_dot.process:an-unknown-member-is-reported-and-nothing-is-bound");
+        __CPROVER_assert(0, "reach:unknown-member");
+    } else {
+        __CPROVER_assert(verif_errors == 0 && w07s_dot_result(1) == K_DOT && w07s_dot_result(2) == idx && w07s_dot_result(3), "c07.expr_dot.process:P.x-is-the-member-named-x-of-P's-template");
+        if ((mt[idx] >> 1) == K_LOCATION) {
+            __CPROVER_assert(w07s_dot_result(4) == K_BOOL * 2, "c07.expr_dot.process:a-location-member-is-a-boolean-test");
+            __CPROVER_assert(0, "reach:location-member");
+        } else {
+            __CPROVER_assert(w07s_dot_result(13) == mt[idx], "c07.expr_dot.process:the-type-is-derived-from-the-declared-type-of-that-member");
+            __CPROVER_assert(w07s_dot_result(12) == 1 && w07s_dot_result(11), "c07.expr_dot.process:qualified-names-are-re-qualified-from-the-template-to-the-process-first");
+            int nmapped = 0;
+            for (int k = 0; k < 3; k++) {
+                int m = (mapped >> k) & 1;
+                nmapped += m;
+                __CPROVER_assert(w07s_dot_result(20 + k) == m && (!m || w07s_dot_result(30 + k)), "c07.expr_dot.process:every-bound-parameter-of-P-is-substituted-by-its-argument-exactly-once");
+            }
+            __CPROVER_assert(w07s_dot_result(40) == 0 && w07s_dot_result(10) == 1 + nmapped, "c07.expr_dot.process:nothing-else-is-substituted");
+            if (nmapped == 3) __CPROVER_assert(0, "reach:three-bindings");
+            if (nmapped == 0) __CPROVER_assert(0, "reach:no-binding");
+        }
+    }
+    REACH;
+}
+
 /* ---- part 3: StatementBuilder scopes -------------------------------------------------------------------------------- */
 void w07b_init(int d, int body_level, int nblocks, int blk_level, int type_id);
 void w07b_call(int which, int name);
